@@ -46,16 +46,30 @@ for block in re.findall(r'\[\[lean_exe\]\]\nname = "([^"]+)"\nroot = "([^"]+)"',
         mine += f'\n[[lean_exe]]\nname = "{block[0]}"\nroot = "{block[1]}"\n'
         print('new exe', block[0])
 (VERIF / 'lean/lakefile.toml').write_text(mine)
-# findings: by (property, id)
+# findings: three-way by (kind, property, id) against the list the builder started from (--base <file>, default: git HEAD)
 def key(line):
-    m = re.match(r'(finding|fixed): property=(\S+) (?:id=(\S+))?', line)
+    m = re.match(r'(finding|fixed):\s+property=(\S+) (?:id=(\S+))?', line)
     return (m.group(1), m.group(2), m.group(3)) if m else None
+import subprocess
+if '--base' in sys.argv:
+    base_text = Path(sys.argv[sys.argv.index('--base') + 1]).read_text()
+else:
+    base_text = subprocess.run(['git', '-C', str(VERIF), 'show', 'HEAD:known_findings.txt'], capture_output=True, text=True).stdout
+base = {key(l): l for l in base_text.splitlines() if key(l)}
+theirs_k = {key(l): l for l in (src / 'known_findings.txt').read_text().splitlines() if key(l)}
 mine_lines = (VERIF / 'known_findings.txt').read_text().splitlines()
+added = changed = removed = 0
+gone = {k for k in base if k not in theirs_k}
+kept = []
+for l in mine_lines:
+    if key(l) in gone:
+        removed += 1
+        continue
+    kept.append(l)
+mine_lines = kept
 index = {key(l): i for i, l in enumerate(mine_lines) if key(l)}
-added = changed = 0
-for line in (src / 'known_findings.txt').read_text().splitlines():
-    k = key(line)
-    if not k or k[0] != 'finding':
+for k, line in theirs_k.items():
+    if base.get(k) == line:
         continue
     if k in index:
         if mine_lines[index[k]] != line:
@@ -65,8 +79,7 @@ for line in (src / 'known_findings.txt').read_text().splitlines():
         mine_lines.append(line)
         added += 1
 (VERIF / 'known_findings.txt').write_text('\n'.join(mine_lines) + '\n')
-their_keys = {key(l) for l in (src / 'known_findings.txt').read_text().splitlines() if key(l)}
 print(f'copied {len(copied)}:', *copied, sep='\n  ')
-print(f'imports +{len(new_imports)}; findings +{added} ~{changed}')
+print(f'imports +{len(new_imports)}; findings +{added} ~{changed} -{removed}')
 if conflicts:
     print('CONFLICTS (changed in /verif after the marker too; merge by hand or --force):', *conflicts, sep='\n  ')
